@@ -279,6 +279,20 @@ def r3_codec(ctx):
         if good:
             digit = any(isinstance(x, ast.Call) and isinstance(x.func, ast.Attribute) and x.func.attr in ("isdigit", "isdecimal", "isnumeric") for x in ast.walk(r.node))
             ctx.check(digit, "C16.R3", r, s, "a suffix is a vector index only when it is an integer", "any suffix after the separator is taken for a vector index", construct="integer suffix test")
+    # what the writer appends is decided column by column: whether a column is a component depends on its own name only (prefix non-empty,
+    # integer suffix) - a test on how many columns share the prefix reads the single `sources_0` column of a one-source model back under another name
+    tests_ = [t for t in ast.walk(r.node) if isinstance(t, ast.If) and any(isinstance(x, ast.Call) and isinstance(x.func, ast.Attribute) and x.func.attr in ("isdigit", "isdecimal", "isnumeric") for x in ast.walk(t.test))]
+    for t in tests_:
+        names_in_test = {x.id for x in ast.walk(t.test) if isinstance(x, ast.Name)}
+        split_vars = set()
+        for st_ in ast.walk(r.node):
+            if isinstance(st_, ast.Assign) and isinstance(st_.value, ast.Call) and st_.value in splits:
+                for tg in st_.targets:
+                    split_vars |= {x.id for x in ast.walk(tg) if isinstance(x, ast.Name)}
+        extra = sorted(names_in_test - split_vars)
+        ctx.check(not extra, "C16.R3", r, t, "component test reads the parts of the column's own name only",
+                  f"whether a column `<name>_<i>` is a component also depends on {extra} (`{U(t.test)[:80]}`): a column that the writer produced for a length-1 vector (`sources_0`) "
+                  "is read back as a parameter of that very name", construct="component test on the name alone")
     # single-column case: what shape comes back ?
     singles = [x for x in ast.walk(r.node) if isinstance(x, ast.IfExp) and isinstance(x.test, ast.Call) and U(x.test.func) == "isinstance" and len(x.test.args) == 2 and U(x.test.args[1]) == "list"]
     for x in singles:
